@@ -600,7 +600,7 @@ pub fn soak_scenario(spec: &SoloSpec, seed: u64, k: u64) -> Scenario {
     }
     faults.truncate(4);
     faults.push(desc::Fault { kind: "hist", at: calls, detail: format!("long-lived generator: {} generation calls", calls) });
-    Scenario { config, hash_key: rng.random(), history, faults }
+    Scenario { config, hash_key: rng.random(), history, faults, steer: None }
 }
 
 /// Extremal-state runs ("deep runs"): long generations driven by a *periodic* fuzzer script (a
@@ -611,7 +611,28 @@ pub fn soak_scenario(spec: &SoloSpec, seed: u64, k: u64) -> Scenario {
 /// seeded search: candidates are probed cheaply (800 opcodes) and ranked per dimension by what the
 /// reference machine R3 measures; the best ones are then run at scale.
 pub fn deep_count(spec: &SoloSpec, tier: Tier) -> u64 {
-    deep_base_count(spec, tier) + wide_count(spec, tier) + tail_variant_count(spec, tier)
+    deep_base_count(spec, tier) + wide_count(spec, tier) + tail_variant_count(spec, tier) + sandwich_count(spec, tier)
+}
+
+/// "sharing x every next opcode" (C09): the opcode-pair patterns with the largest unfolded size,
+/// repeated 60 times (2^60 paths for a doubling pattern such as DUP TUPLE2), followed by one more
+/// choice byte 0..63 - the place where a recursive walk over the object (hash, compare, format)
+/// would never finish
+pub fn sandwich_count(spec: &SoloSpec, tier: Tier) -> u64 {
+    match (spec.prop, tier) {
+        ("C09", Tier::Quick) => 6 * 64,
+        ("C09", Tier::Thorough) => 30 * 64,
+        _ => 0,
+    }
+}
+
+fn sandwich_scenario(seed: u64, k: u64) -> Scenario {
+    let pairs = pair_patterns(seed);
+    if pairs.is_empty() {
+        return Scenario::solo(Config::default_for(0), Entropy::Rand(k));
+    }
+    let pp = &pairs[((k / 64) as usize) % pairs.len()];
+    pp.scenario(60, Some((k % 64) as u8))
 }
 
 /// "beyond 2^16" runs: the cheap extremal patterns (memo entries, open MARKs, nesting — their stack
@@ -724,6 +745,175 @@ fn probe_pattern(p: u8, pat: &[u8]) -> [u32; 6] {
     [m.max_depth, max_stack, max_marks, max_memo, b.len() as u32, if framed { b.len() as u32 } else { 0 }]
 }
 
+// ------------------------------------------------------------------------------------------
+// opcode-pair patterns and the "sharing" dimension
+
+/// a repeating opcode pair (a b)* after a short prefix, ranked by how large the object on the
+/// stack becomes when shared children are unfolded once per path (what a recursive walk without
+/// memoisation - hashing, comparing, printing - would visit)
+#[derive(Clone, Debug)]
+pub struct PairPattern {
+    pub protocol: u8,
+    pub prefix: Vec<&'static str>,
+    pub a: &'static str,
+    pub b: &'static str,
+    pub unfolded_log2: u32,
+    pub nesting: u32,
+}
+
+pub const PAIR_VOCAB: [&str; 22] = [
+    "MARK", "NONE", "EMPTY_TUPLE", "EMPTY_LIST", "EMPTY_DICT", "DUP", "TUPLE", "TUPLE1", "TUPLE2", "TUPLE3", "LIST", "DICT", "APPEND", "SETITEM", "BINPUT", "BINGET", "MEMOIZE", "POP", "GLOBAL", "REDUCE", "BUILD", "BINPERSID",
+];
+pub const PAIR_PREFIXES: [&[&str]; 4] = [&["NONE"], &["MARK", "NONE"], &["EMPTY_TUPLE"], &["MARK", "EMPTY_TUPLE"]];
+const PAIR_PROBE_REPS: usize = 10;
+
+impl PairPattern {
+    pub fn program(&self, reps: usize) -> Vec<String> {
+        let mut v: Vec<String> = self.prefix.iter().map(|s| s.to_string()).collect();
+        for _ in 0..reps {
+            v.push(self.a.to_string());
+            v.push(self.b.to_string());
+        }
+        v
+    }
+    pub fn scenario(&self, reps: usize, tail: Option<u8>) -> Scenario {
+        let ops = self.program(reps);
+        let n = ops.len() + usize::from(tail.is_some());
+        let mut sc = Scenario::solo(tree_config(self.protocol, n), Entropy::Bytes(vec![]));
+        sc.steer = Some(desc::Steer { ops, tail });
+        sc.faults.push(desc::Fault {
+            kind: "steered",
+            at: 0,
+            detail: format!("prefix {:?} then ({} {}) x {}{} (probe: unfolded size 2^{}, nesting {})", self.prefix, self.a, self.b, reps, tail.map(|b| format!(", then choice byte 0x{:02x}", b)).unwrap_or_default(), self.unfolded_log2, self.nesting),
+        });
+        sc
+    }
+}
+
+fn pair_candidates() -> Vec<(u8, usize, &'static str, &'static str)> {
+    let mut v = vec![];
+    for p in [0u8, 2, 4] {
+        for (pi, _) in PAIR_PREFIXES.iter().enumerate() {
+            for a in PAIR_VOCAB {
+                for b in PAIR_VOCAB {
+                    let ok = |n: &str| crate::lexer::by_name(n).is_some_and(|i| i.proto <= p);
+                    if ok(a) && ok(b) {
+                        v.push((p, pi, a, b));
+                    }
+                }
+            }
+        }
+    }
+    v
+}
+
+/// probe one pair pattern: steer prefix + (a b)^10 through the real generator, measure with R3
+fn probe_pair(p: u8, pi: usize, a: &'static str, b: &'static str) -> Option<PairPattern> {
+    let mut pp = PairPattern { protocol: p, prefix: PAIR_PREFIXES[pi].to_vec(), a, b, unfolded_log2: 0, nesting: 0 };
+    let sc = pp.scenario(PAIR_PROBE_REPS, None);
+    let recs = exec::run_scenario(&sc, Trace::Off, false);
+    let out = recs.first()?.outcome.bytes()?;
+    let (ops, err) = crate::lexer::lex(out);
+    if err.is_some() {
+        return None;
+    }
+    let mut m = crate::machine::Machine::new();
+    m.track_graph = true;
+    m.lenient_memo = true;
+    let mut best = 0;
+    // measured before the generator's own cleanup tail: header + prefix + 2*reps opcodes
+    let body = pp.prefix.len() + 2 * PAIR_PROBE_REPS;
+    let header = ops.iter().take(2).filter(|o| o.name() == "PROTO" || o.name() == "FRAME").count();
+    for (i, op) in ops.iter().enumerate() {
+        if i >= header + body {
+            break;
+        }
+        if m.step(op).is_err() {
+            return None;
+        }
+        best = best.max(m.unfolded_log2());
+    }
+    pp.unfolded_log2 = best;
+    pp.nesting = m.max_depth;
+    Some(pp)
+}
+
+pub fn pair_patterns(seed: u64) -> &'static Vec<PairPattern> {
+    use std::sync::OnceLock;
+    static CACHE: OnceLock<Vec<PairPattern>> = OnceLock::new();
+    CACHE.get_or_init(|| {
+        let cands = pair_candidates();
+        if let Ok(path) = std::env::var("PFSIM_DEEP_FILE") {
+            if let Ok(txt) = std::fs::read_to_string(&path) {
+                if let Ok(v) = serde_json::from_str::<Value>(&txt) {
+                    if v["seed"].as_str() == Some(&seed.to_string()) {
+                        if let Some(a) = v["pairs"].as_array() {
+                            let out: Vec<PairPattern> = a
+                                .iter()
+                                .filter_map(|e| {
+                                    let i = e[0].as_u64()? as usize;
+                                    let (p, pi, a, b) = *cands.get(i)?;
+                                    Some(PairPattern { protocol: p, prefix: PAIR_PREFIXES[pi].to_vec(), a, b, unfolded_log2: e[1].as_u64()? as u32, nesting: e[2].as_u64()? as u32 })
+                                })
+                                .collect();
+                            return out;
+                        }
+                    }
+                }
+            }
+        }
+        let nt = n_threads();
+        let mut all: Vec<(usize, PairPattern)> = std::thread::scope(|s| {
+            let cands = &cands;
+            let hs: Vec<_> = (0..nt)
+                .map(|t| {
+                    s.spawn(move || {
+                        let mut out = vec![];
+                        let mut i = t;
+                        while i < cands.len() {
+                            let (p, pi, a, b) = cands[i];
+                            pair_progress(i, true);
+                            if let Some(pp) = probe_pair(p, pi, a, b) {
+                                if pp.unfolded_log2 >= 6 {
+                                    out.push((i, pp));
+                                }
+                            }
+                            pair_progress(i, false);
+                            i += nt;
+                        }
+                        out
+                    })
+                })
+                .collect();
+            hs.into_iter().flat_map(|h| h.join().unwrap()).collect()
+        });
+        // largest unfolded size first; ties by candidate order
+        all.sort_by(|x, y| y.1.unfolded_log2.cmp(&x.1.unfolded_log2).then(x.0.cmp(&y.0)));
+        PAIR_INDEX.get_or_init(|| all.iter().map(|x| x.0).collect());
+        all.into_iter().map(|x| x.1).collect()
+    })
+}
+
+static PAIR_INDEX: std::sync::OnceLock<Vec<usize>> = std::sync::OnceLock::new();
+
+fn pair_progress(i: usize, begin: bool) {
+    use std::io::Write;
+    use std::sync::OnceLock;
+    static ON: OnceLock<bool> = OnceLock::new();
+    if *ON.get_or_init(|| std::env::var("PFSIM_PROBE_PROGRESS").is_ok()) {
+        let o = std::io::stdout();
+        let mut o = o.lock();
+        let _ = writeln!(o, "{} {}", if begin { "QB" } else { "QE" }, i);
+        let _ = o.flush();
+    }
+}
+
+/// the probe run of pair candidate `i` as a scenario (attribution of a dead probing child)
+pub fn pair_probe_scenario(i: usize) -> Option<Scenario> {
+    let (p, pi, a, b) = *pair_candidates().get(i)?;
+    Some(PairPattern { protocol: p, prefix: PAIR_PREFIXES[pi].to_vec(), a, b, unfolded_log2: 0, nesting: 0 }.scenario(PAIR_PROBE_REPS, None))
+}
+
 /// when PFSIM_PROBE_PROGRESS is set (the isolated probing child of the C09 check) every probe is
 /// announced on stdout, so that a probe that kills or hangs the child can be attributed
 fn probe_progress(i: usize, p: &u8, pat: &[u8], begin: bool) {
@@ -750,7 +940,7 @@ pub fn probe_scenario(p: u8, pat: &[u8]) -> Scenario {
 
 /// compute the probe table now (used by the isolated probing child)
 pub fn force_deep_patterns(seed: u64) -> usize {
-    deep_patterns(seed).len()
+    deep_patterns(seed).len() + pair_patterns(seed).len()
 }
 
 fn deep_patterns(seed: u64) -> &'static Vec<Pattern> {
@@ -873,7 +1063,10 @@ pub fn export_deep_patterns(seed: u64) {
 pub fn export_deep_patterns_to(seed: u64, path: &str) {
     let pats = deep_patterns(seed);
     let path = path.to_string();
-    let doc = json!({"seed": seed.to_string(), "patterns": pats.iter().map(|p| json!([p.protocol, desc::hex(&p.pat), p.score.to_vec()])).collect::<Vec<_>>()});
+    let pairs = pair_patterns(seed);
+    let idx = PAIR_INDEX.get().cloned().unwrap_or_default();
+    let doc = json!({"seed": seed.to_string(), "patterns": pats.iter().map(|p| json!([p.protocol, desc::hex(&p.pat), p.score.to_vec()])).collect::<Vec<_>>(),
+        "pairs": pairs.iter().zip(idx.iter()).map(|(p, i)| json!([i, p.unfolded_log2, p.nesting])).collect::<Vec<_>>()});
     if std::fs::write(&path, doc.to_string()).is_ok() {
         std::env::set_var("PFSIM_DEEP_FILE", &path);
     }
@@ -938,6 +1131,10 @@ fn tail_variant_scenario(spec: &SoloSpec, seed: u64, tier: Tier, k: u64) -> Scen
 pub fn deep_scenario(spec: &SoloSpec, seed: u64, tier: Tier, k: u64) -> Scenario {
     let base = deep_base_count(spec, tier);
     let wide = wide_count(spec, tier);
+    let tails = tail_variant_count(spec, tier);
+    if k >= base + wide + tails {
+        return sandwich_scenario(seed, k - base - wide - tails);
+    }
     if k >= base + wide {
         return tail_variant_scenario(spec, seed, tier, k - base - wide);
     }
